@@ -95,9 +95,13 @@ where
     FrameFn: FnOnce(&str, u32) -> T2 + Sync,
     T2: Future<Output = Result<FrameIO, Error>>,
 {
+    // do not hold the context lock while waiting for the client's request: the registry
+    // (and with it the API and every new connection) would wait behind a stalled client
+    let mut stream = ctx.write().await.take_client_stream();
+    let request = HttpRequest::read_from(&mut stream).await?;
     let mut ctx_lock = ctx.write().await;
+    ctx_lock.set_client_stream(stream);
     let socket = ctx_lock.borrow_client_stream().unwrap();
-    let request = HttpRequest::read_from(socket).await?;
     tracing::trace!("request={:?}", request);
     if request.method.eq_ignore_ascii_case("CONNECT") {
         let protocol = request.header("Proxy-Protocol", "tcp");
